@@ -4,6 +4,7 @@ import (
 	"fmt"
 	"os"
 	"go/ast"
+	"go/token"
 	"go/types"
 	"sort"
 	"strings"
@@ -110,6 +111,14 @@ func listAccessorFacts(info *types.Info, fd *ast.FuncDecl) listFacts {
 						if len(call.Args) == 2 {
 							start.env[sliceObj] = "make:" + d.canon(start, call.Args[1])
 						}
+						if len(call.Args) == 3 {
+							start.env[sliceObj] = "make:" + d.canon(start, call.Args[1]) + ":cap"
+						}
+						continue
+					}
+					if cl, ok := y.Rhs[0].(*ast.CompositeLit); ok && len(cl.Elts) == 0 && y.Tok == token.DEFINE {
+						sliceObj = objOf(info, id)
+						start.env[sliceObj] = "make:0:cap"
 						continue
 					}
 					d.bind(start, id, d.canon(start, y.Rhs[0]))
@@ -121,6 +130,33 @@ func listAccessorFacts(info *types.Info, fd *ast.FuncDecl) listFacts {
 		return listFacts{why: "no 'out := make([]string, len(X)); for i, p := range X' shape"}
 	}
 	f := listFacts{ranged: d.canon(start, rs.X)}
+	if start.env[sliceObj] == "make:0:cap" {
+		// out starts empty and grows by one append per element, in order
+		v, _ := rs.Value.(*ast.Ident)
+		if v == nil || len(rs.Body.List) != 1 {
+			return listFacts{why: "loop body is not a single append"}
+		}
+		start.env[info.Defs[v]] = "P"
+		as, ok := rs.Body.List[0].(*ast.AssignStmt)
+		if !ok || len(as.Lhs) != 1 || len(as.Rhs) != 1 || !isObj(info, as.Lhs[0], sliceObj) {
+			return listFacts{why: "loop body is not 'out = append(out, f(p))'"}
+		}
+		call, ok := as.Rhs[0].(*ast.CallExpr)
+		if !ok || calleeName(info, call) != "builtin.append" || len(call.Args) != 2 || !isObj(info, call.Args[0], sliceObj) || call.Ellipsis.IsValid() {
+			return listFacts{why: "loop body is not 'out = append(out, f(p))'"}
+		}
+		f.elem = d.canon(start, call.Args[1])
+		ast.Inspect(fd.Body, func(n ast.Node) bool {
+			if call, ok := n.(*ast.CallExpr); ok && calleeName(info, call) == "strings.Join" && len(call.Args) == 2 {
+				if id, ok := call.Args[0].(*ast.Ident); ok && info.Uses[id] == sliceObj {
+					f.sep = types.ExprString(call.Args[1])
+				}
+			}
+			return true
+		})
+		f.ok = true
+		return f
+	}
 	if start.env[sliceObj] != "make:builtin.len("+f.ranged+")" {
 		return listFacts{why: "the result slice is sized " + start.env[sliceObj] + ", not by the ranged list " + f.ranged}
 	}
@@ -338,12 +374,13 @@ func ruleAccessors(c *Ctx, r *Repo, r1, r2, r3 string) {
 		{"Method.ArgCallListNoEllipsis", "RECV.argCallListSlice<(template.Method).argCallListSlice>(0, -1, false)"},
 		{"Method.ArgCallListSlice", "RECV.argCallListSlice<(template.Method).argCallListSlice>(ARG0, ARG1, true)"},
 		{"Method.ArgCallListSliceNoEllipsis", "RECV.argCallListSlice<(template.Method).argCallListSlice>(ARG0, ARG1, false)"},
+		// calls of single-return functions of the package are printed as the expression they return
 		{"Method.Call", `fmt.Sprintf("%s(%s)", RECV.Name, RECV.ArgCallList<(template.Method).ArgCallList>())`},
 		{"Method.Signature", `fmt.Sprintf("(%s) (%s)", RECV.ArgList<(template.Method).ArgList>(), RECV.ReturnArgList<(template.Method).ReturnArgList>())`},
 		{"Method.Declaration", "RECV.Name + RECV.Signature<(template.Method).Signature>()"},
 		{"Method.IsVariadic", "builtin.len(RECV.Params) > 0 && RECV.Params[builtin.len(RECV.Params) - 1].Variadic"},
 		{"Param.Name", "RECV.Var.Name"},
-		{"Param.TypeString", "RECV.Var.TypeString<(template.Var).TypeString>()"},
+		{"Param.TypeString", "go/types.TypeString(RECV.Var.typ, RECV.Var.packageQualifier)"},
 	}
 	for _, w := range wrappers {
 		fd := FuncDecl(tp, w.fn)
@@ -358,9 +395,12 @@ func ruleAccessors(c *Ctx, r *Repo, r1, r2, r3 string) {
 		got := ""
 		if len(fd.Body.List) == 1 {
 			if rs, ok := fd.Body.List[0].(*ast.ReturnStmt); ok && len(rs.Results) == 1 {
-				d := newDT(info)
+				d := newDTP(tp, fd)
 				got = d.canon(seedEnv(d, fd), rs.Results[0])
 			}
+		}
+		if os.Getenv("MVCHECK_LIST") != "" {
+			fmt.Printf("WRAP\t%s\t%s\n", w.fn, got)
 		}
 		c.Check(got == w.want, rule, w.fn, r.Pos(fd.Pos()), w.fn+" = "+w.want, fmt.Sprintf("%s returns %s; documented: %s", w.fn, got, w.want))
 	}
@@ -369,8 +409,8 @@ func ruleAccessors(c *Ctx, r *Repo, r1, r2, r3 string) {
 		conds map[string]bool
 		ret   string
 	}
-	const tsR = "RECV.TypeString<(template.Param).TypeString>()"
-	const nmR = "RECV.Name<(template.Param).Name>()"
+	const tsR = "go/types.TypeString(RECV.Var.typ, RECV.Var.packageQualifier)"
+	const nmR = "RECV.Var.Name"
 	tables := map[string][]row{
 		"Param.MethodArg": {
 			{map[string]bool{"RECV.Variadic": true}, `fmt.Sprintf("%s ...%s", ` + nmR + `, ` + tsR + `[2:])`},
@@ -398,7 +438,12 @@ func ruleAccessors(c *Ctx, r *Repo, r1, r2, r3 string) {
 			continue
 		}
 		c.Func(funcKey(tp, fd))
-		paths, _ := enumerateFunc(info, fd)
+		paths, _ := enumerateFuncP(tp, fd)
+		if os.Getenv("MVCHECK_LIST") != "" {
+			for _, p := range paths {
+				fmt.Printf("TABLE\t%s\t%s\n", fn, p.String())
+			}
+		}
 		ok := len(paths) == len(tables[fn])
 		why := fmt.Sprintf("%d paths, want %d", len(paths), len(tables[fn]))
 		for _, p := range paths {
@@ -426,7 +471,7 @@ func ruleAccessors(c *Ctx, r *Repo, r1, r2, r3 string) {
 		c.Check(ok, r3, fn+"|table", r.Pos(fd.Pos()), fn+" matches its documented cases", fn+": "+why)
 	}
 	if fd := FuncDecl(tp, "Param.TypeStringVariadicUnderlying"); fd != nil {
-		paths, _ := enumerateFunc(info, fd)
+		paths, _ := enumerateFuncP(tp, fd)
 		ok := len(paths) == 1 && paths[0].Exit == "return" && paths[0].Ret[0] == `strings.Replace(RECV.TypeStringEllipsis<(template.Param).TypeStringEllipsis>(), "...", "", 1)`
 		c.Check(ok, r3, "Param.TypeStringVariadicUnderlying|table", r.Pos(fd.Pos()), "ellipsis form without its first ...", "TypeStringVariadicUnderlying is not TypeStringEllipsis with its first \"...\" removed")
 	}
@@ -450,8 +495,8 @@ func ruleQualifiedTypes(c *Ctx, r *Repo, rule string) {
 	tp := r.Pkg("template")
 	info := tp.TypesInfo
 	if fd := FuncDecl(tp, "Var.TypeString"); fd != nil {
-		paths, _ := enumerateFunc(info, fd)
-		ok := len(paths) == 1 && paths[0].Ret[0] == "go/types.TypeString(RECV.Type<(template.Var).Type>(), RECV.packageQualifier)"
+		paths, _ := enumerateFuncP(tp, fd)
+		ok := len(paths) == 1 && paths[0].Ret[0] == "go/types.TypeString(RECV.typ, RECV.packageQualifier)"
 		c.Check(ok, rule, "Var.TypeString", r.Pos(fd.Pos()), "types.TypeString(own (possibly replaced) type, own qualifier function)", "Var.TypeString is not types.TypeString(v.Type(), v.packageQualifier)")
 	} else {
 		c.Fail(rule, "Var.TypeString|missing", "template/var.go", "Var.TypeString not found")
@@ -646,8 +691,8 @@ func ruleNillable(c *Ctx, r *Repo, rule string) {
 	if fd := FuncDecl(tp, "Var.Nillable"); fd == nil {
 		c.Fail(rule, "Var.Nillable|missing", "template/var.go", "Var.Nillable not found")
 	} else {
-		paths, _ := enumerateFunc(info, fd)
-		ok := len(paths) == 1 && len(paths[0].Ret) == 1 && stripRes(paths[0].Ret[0]) == "template.nillable(RECV.Type())"
+		paths, _ := enumerateFuncP(tp, fd)
+		ok := len(paths) == 1 && len(paths[0].Ret) == 1 && stripRes(paths[0].Ret[0]) == "template.nillable(RECV.typ)"
 		c.Check(ok, rule, "Var.Nillable", r.Pos(fd.Pos()), "Nillable() = nillable(Type())", "Var.Nillable is not nillable(v.Type())")
 	}
 	fd := FuncDecl(tp, "nillable")
